@@ -79,6 +79,38 @@ var c12FormsX = []c12formX{
 	{c12form{"20", "switch zSig2.(type) {\n\tcase %s:\n\t}", "S2OK", true}, c12Sig2Fillers},
 	{c12form{"19", "{\n\t\tvar t Sig2 = %s{}\n\t\tsink(t)\n\t}", "S2OK", true}, c12Sig2Fillers},
 	{c12form{"19", "zSig2 = %s{}", "S2OK", true}, c12Sig2Fillers},
+	// [18] selector lookup through embedded / named fields, values and pointers, one and two levels
+	{c12form{"18", "sink(%s.Foo())", "zEmbV", false}, c12SelFillers},
+	{c12form{"18", "sink(%s.PFoo())", "zEmbP", false}, c12SelFillers},
+	{c12form{"18", "sink(%s.x)", "zEmbV", false}, c12SelFillers},
+	{c12form{"18", "sink(%s.Foo)", "zEmbV", false}, c12SelFillers},
+	{c12form{"18", "{\n\t\tf := %s.Foo\n\t\tsink(f())\n\t}", "zEmbV", false}, c12SelFillers},
+	{c12form{"18", "%s.x = 2", "zEmbV", false}, c12SelFillers},
+	// [13] [14] call shapes: argument lists with ... at every position, for variadic callees with fixed parameters
+	{c12form{"14", "sink(addAll(%s))", "1, 2", false}, c12ArgFillers},
+	{c12form{"14", "sink(zAcc.AddAll(%s))", "1, 2", false}, c12ArgFillers},
+	{c12form{"14", "sink(zAddFn(%s))", "1, 2", false}, c12ArgFillers},
+	{c12form{"14", "sink(pick2(%s))", "1, 2, 3", false}, c12ArgFillers},
+	{c12form{"14", "sink(anyAll(%s))", "1, 2", false}, c12ArgFillers},
+	{c12form{"14", "sink(func(base int, more ...int) int { return base }(%s))", "1, 2", false}, c12ArgFillers},
+	{c12form{"14", "go addAll(%s)", "1, 2", false}, c12ArgFillers},
+	{c12form{"14", "defer addAll(%s)", "1, 2", false}, c12ArgFillers},
+}
+
+var c12SelFillers = []c12filler{
+	{"leaf", "zLeaf"}, {"emb-value", "zEmbV"}, {"emb-ptr", "zEmbP"}, {"named-value", "zNamV"}, {"named-ptr", "zNamP"},
+	{"emb-emb", "zEmbEmb"}, {"emb-named", "zEmbNam"}, {"named-emb", "zNamEmb"}, {"named-named", "zNamNam"}, {"defined-from-named", "zDefNam"}, {"defined-from-emb", "zDefEmb"},
+	{"addr-emb-value", "(&zEmbV)"}, {"addr-named-value", "(&zNamV)"}, {"addr-emb-named", "(&zEmbNam)"}, {"addr-named-emb", "(&zNamEmb)"},
+	{"named-value.field", "zNamV.a"}, {"named-emb.field", "zNamEmb.n"},
+}
+
+// argument lists: every count around the arity and ... at every position
+var c12ArgFillers = []c12filler{
+	{"args-0", ""}, {"args-1", "1"}, {"args-2", "1, 2"}, {"args-3", "1, 2, 3"}, {"args-4", "1, 2, 3, 4"},
+	{"spread-at-0", "zSl..."}, {"spread-at-1", "1, zSl..."}, {"spread-at-2", "1, 2, zSl..."}, {"spread-at-3", "1, 2, 3, zSl..."},
+	{"spread-eface-at-0", "zEfs..."}, {"spread-eface-at-1", "1, zEfs..."}, {"spread-strings-at-1", "1, zStrs..."}, {"spread-nonslice-at-1", "1, zInt..."},
+	{"spread-named-slice-at-1", "1, zNSl..."}, {"spread-array-at-1", "1, zArr..."}, {"spread-nil-at-1", "1, nil..."}, {"spread-twice", "zSl..., zSl..."},
+	{"spread-then-arg", "1, zSl..., 2"}, {"tuple", "divmod(7, 2)"}, {"tuple-spread", "divmod(7, 2)..."}, {"wrong-type-at-0", "zStr, 2"},
 }
 
 // every form with the fillers that apply to it
